@@ -120,38 +120,51 @@ func main() {
 					lens = append(lens, l)
 				}
 			}
+			// encodings: fixed length; for the types that may be variable-length also the 65535 marker with the short
+			// and the 3-octet length prefix (how a field is delimited is decided from the element's model entry)
+			encs := []int{0}
+			if wire.VarLenOK(e.Type) {
+				encs = []int{0, 1, 2}
+			}
 			for _, l := range lens {
-				for _, fill := range []byte{0x00, 0x01, 0x02, 0x7f, 0x80, 0xff} {
-					t := &wire.Template{ID: 300, Fields: []wire.Field{{PEN: e.PEN, ID: e.ID, Len: uint16(l), Type: e.Type}}}
-					raw := make([]byte, l)
-					for i := range raw {
-						raw[i] = fill + byte(i)
-					}
-					m1 := wire.Msg{Sets: []wire.Set{{Kind: wire.SetTemplate, Templates: []*wire.Template{t}}}}
-					m2 := wire.Msg{Sets: []wire.Set{{Kind: wire.SetData, Tpl: t, SetID: 300, Records: []wire.Record{{{Raw: raw}}}}}}
-					cache := ipfix.GetCache("")
-					ip := net.IP{10, 0, 0, 1}
-					ipfix.NewDecoder(ip, m1.Encode()).Decode(cache)
-					key := fmt.Sprintf("%d/%d len %d fill %02x", e.PEN, e.ID, l, fill)
-					func() {
-						defer func() {
-							if p := recover(); p != nil {
-								out[key] = fmt.Sprint("panic: ", p)
+				for _, enc := range encs {
+					for _, fill := range []byte{0x00, 0x01, 0x02, 0x7f, 0x80, 0xff} {
+						t := &wire.Template{ID: 300, Fields: []wire.Field{{PEN: e.PEN, ID: e.ID, Len: uint16(l), Type: e.Type}}}
+						raw := make([]byte, l)
+						for i := range raw {
+							raw[i] = fill + byte(i)
+						}
+						val := wire.Val{Raw: raw}
+						if enc > 0 {
+							t.Fields[0].Len = 65535
+							val.Long = enc == 2
+						}
+						m1 := wire.Msg{Sets: []wire.Set{{Kind: wire.SetTemplate, Templates: []*wire.Template{t}}}}
+						m2 := wire.Msg{Sets: []wire.Set{{Kind: wire.SetData, Tpl: t, SetID: 300, Records: []wire.Record{{val}}}}}
+						cache := ipfix.GetCache("")
+						ip := net.IP{10, 0, 0, 1}
+						ipfix.NewDecoder(ip, m1.Encode()).Decode(cache)
+						key := fmt.Sprintf("%d/%d len %d fill %02x%s", e.PEN, e.ID, l, fill, []string{"", " variable-length", " variable-length (3-octet prefix)"}[enc])
+						func() {
+							defer func() {
+								if p := recover(); p != nil {
+									out[key] = fmt.Sprint("panic: ", p)
+								}
+							}()
+							msg, err := ipfix.NewDecoder(ip, m2.Encode()).Decode(cache)
+							if msg == nil || len(msg.DataSets) != 1 || len(msg.DataSets[0]) != 1 {
+								out[key] = fmt.Sprintf("no single record (err %v)", err)
+								return
+							}
+							f := msg.DataSets[0][0]
+							out[key] = fmt.Sprintf("I:%d E:%d %s", f.ID, f.EnterpriseNo, wire.Canon(f.Value))
+							want := fmt.Sprintf("I:%d E:%d %s", e.ID, e.PEN, wire.Expect(e.Type, raw))
+							run.Eval(1)
+							if out[key] != want {
+								v("decode-vs-snapshot", fmt.Sprintf("element %s decoded as %s, snapshot type %s expects %s", key, out[key], e.Type, want), map[string]interface{}{"element": key, "type": e.Type})
 							}
 						}()
-						msg, err := ipfix.NewDecoder(ip, m2.Encode()).Decode(cache)
-						if msg == nil || len(msg.DataSets) != 1 || len(msg.DataSets[0]) != 1 {
-							out[key] = fmt.Sprintf("no single record (err %v)", err)
-							return
-						}
-						f := msg.DataSets[0][0]
-						out[key] = fmt.Sprintf("I:%d E:%d %s", f.ID, f.EnterpriseNo, wire.Canon(f.Value))
-						want := fmt.Sprintf("I:%d E:%d %s", e.ID, e.PEN, wire.Expect(e.Type, raw))
-						run.Eval(1)
-						if out[key] != want {
-							v("decode-vs-snapshot", fmt.Sprintf("element %s decoded as %s, snapshot type %s expects %s", key, out[key], e.Type, want), map[string]interface{}{"element": key, "type": e.Type})
-						}
-					}()
+					}
 				}
 			}
 		}
@@ -231,7 +244,9 @@ func main() {
 		}{
 			{"plain copy", func(d string) error { return os.WriteFile(filepath.Join(d, "ipfix.elements"), content, 0o644) }},
 			{"read-only copy", func(d string) error { return os.WriteFile(filepath.Join(d, "ipfix.elements"), content, 0o444) }},
-			{"hard link", func(d string) error { return os.Link(filepath.Join(store, "ipfix.elements"), filepath.Join(d, "ipfix.elements")) }},
+			{"hard link", func(d string) error {
+				return os.Link(filepath.Join(store, "ipfix.elements"), filepath.Join(d, "ipfix.elements"))
+			}},
 			{"absolute symbolic link", func(d string) error {
 				return os.Symlink(filepath.Join(store, "ipfix.elements"), filepath.Join(d, "ipfix.elements"))
 			}},
